@@ -93,6 +93,14 @@ extern real_t verif_nan_value, verif_inf_value;
 #define V_MIN(T, a, b) ({ __typeof__(a) verif_a = (a); __typeof__(b) verif_b = (b); verif_b < verif_a ? verif_b : verif_a; })
 #define V_MAX(T, a, b) ({ __typeof__(a) verif_a = (a); __typeof__(b) verif_b = (b); verif_a < verif_b ? verif_b : verif_a; })
 
+/* <cctype> in the "C" locale */
+#define V_ISDIGIT(c) ((c) >= '0' && (c) <= '9')
+#define V_ISSPACE(c) ((c) == ' ' || ((c) >= 9 && (c) <= 13))
+#define V_ISALPHA(c) (((c) >= 'a' && (c) <= 'z') || ((c) >= 'A' && (c) <= 'Z'))
+#define V_ISALNUM(c) (V_ISALPHA(c) || V_ISDIGIT(c))
+#define V_TOUPPER(c) (((c) >= 'a' && (c) <= 'z') ? (c) - 32 : (c))
+#define V_TOLOWER(c) (((c) >= 'A' && (c) <= 'Z') ? (c) + 32 : (c))
+
 /* ---- std::vector / std::string as unbounded SMT arrays ---------------------------------------- */
 #if defined(VERIF_MODE_SA) || defined(VERIF_MODE_SAI)
 #define VERIF_INF __CPROVER_constant_infinity_uint
